@@ -273,6 +273,14 @@ def run(ctx: Any, prog: Program) -> None:
     ctx.rule('C16.Q3', 'text name tables and keywords agree between FGD writer and parser', floor=25)
     ctx.rule('C16.Q4', 'text writers: no dangling colon, quoted slots escaped, long strings not cut inside an escape, parser options', floor=40)
     ctx.rule('C16.Q5', 'lazy block parsing only fills placeholders with fresh objects, is idempotent, and is shared by get_fgd', floor=8)
+    # per-object state that methods change in place must not be a class-level container shared by every instance (see engine.model)
+    from engine.model import shared_mutable_class_attrs as _smca
+    for _m in (db, fgd):
+        _hits = _smca(_m.tree, [c.name for c in _m.tree.body if isinstance(c, ast.ClassDef)])
+        for _cn, _attr, _st in _hits:
+            ctx.check('C16.Q5', False, _m, _st, f'{_cn}.{_attr} is a class-level container (`{U(_st.value)[:30]}`) that methods change in place and no __init__ assigns: all {_cn} objects share it, so what one database or FGD object has loaded changes what another one returns',
+                      func=_cn, text=f'{_cn}.{_attr} is per-object state')
+        ctx.check('C16.Q5', True, _m, _m.tree, f'{len(_hits)} shared class-level containers in {_m.relpath}', func='<module>', text=f'{_m.relpath}: class-level containers examined')
 
     from rules.c16_helpers import q6_helper_args
     q6_helper_args(ctx, prog)
